@@ -288,6 +288,17 @@ theorem relax_generated (e : Env K) (wt hh : Cell → Cell → K) (hx : e.ops = 
             | true => simp; exact not_lt.mp (fun h => hsk ⟨hop, h⟩)
           simp [hin, hcr, hcl, hx, fieldOps, this]
 
+/-- the updates between the pop and the neighbour loop are `close`: the popped cell leaves the open
+    list and enters the closed list -/
+theorem pop_generated (st : St K) (u : Cell) :
+    let s' := popBody.exec (fun _ _ _ => none) (fun _ => [])
+      ⟨envOf [("open@u", b2n (st.isOpen u)), ("closed@u", b2n (st.isClosed u))], none, false, none⟩
+    s'.env "open@u" = (b2n ((close st u).isOpen u) : NV K) ∧ s'.env "closed@u" = b2n ((close st u).isClosed u) ∧
+    s'.failed = none ∧ s'.halted = false := by
+  intro s'
+  simp only [s']
+  refine ⟨?_, ?_, ?_, ?_⟩ <;> ksimp [popBody, b2n, close]
+
 /-! ### `_min_cost_pixel_id` -/
 
 /-- the running minimum of `_min_cost_pixel_id` as its three variables: `(NONE, NONE)` is `(-1, -1)` -/
